@@ -36,7 +36,8 @@ theorem CInv.read_rel (c : Chunk) (l : List (Int × Hist)) (inv : CInv c l) : Al
 def SInv (s : Series) (gs : List (List (Int × Hist))) : Prop := All2 CInv (s.cur.toList ++ s.done) gs
 
 theorem CInv.empty (float : Bool) : CInv (Chunk.empty float) [] :=
-  ⟨trivial, by simp [Chunk.empty, idxs_nil], by simp [Chunk.empty, idxs_nil], by simp, by simp, trivial⟩
+  ⟨trivial, by simp [Chunk.empty, idxs_nil], by simp [Chunk.empty, idxs_nil], by simp, by simp, trivial,
+    by simp [Chunk.empty], by simp [Chunk.empty]⟩
 
 theorem CInv.nil_of_empty (c : Chunk) (l : List (Int × Hist)) (inv : CInv c l) (he : c.rev = []) : l = [] := by
   have := inv.rep; rw [he] at this
@@ -47,7 +48,8 @@ theorem CInv.nil_of_empty (c : Chunk) (l : List (Int × Hist)) (inv : CInv c l) 
 /-- **`memSeries.appendHistogram`** keeps the series invariant and hands the histogram back meaning the same. -/
 theorem Series.append_inv (s : Series) (gs : List (List (Int × Hist))) (inv : SInv s gs) (cut : Bool) (t : Int)
     (h : Hist) (hwf : WFs h) (s' : Series) (h' : Hist) (o : Outcome) (hr : s.append cut t h = .ok (s', h', o)) :
-    (∃ gs', SInv s' gs' ∧ gs'.flatten = (t, h) :: gs.flatten) ∧
+    (∃ gs', SInv s' gs' ∧ gs'.flatten = (t, h) :: gs.flatten ∧
+        (gs' = [(t, h)] :: gs ∨ ∃ g rest, gs = g :: rest ∧ gs' = ((t, h) :: g) :: rest ∧ g.length ≠ 65535)) ∧
       (h.stale = true → h' = h) ∧ (h.stale = false → h'.sem = h.sem) := by
   unfold Series.append at hr
   cases hc : s.cur with
@@ -57,7 +59,7 @@ theorem Series.append_inv (s : Series) (gs : List (List (Int × Hist))) (inv : S
     simp [pure, Except.pure] at hr2
     obtain ⟨rfl, rfl, rfl⟩ := hr2
     obtain ⟨k1, k2, k3⟩ := appendHist_step none _ [] (CInv.empty h.float) t h hwf rfl r hr1 (fun hx => absurd rfl hx)
-    refine ⟨⟨[(t, h)] :: gs, ?_, by simp⟩, k1, k2⟩
+    refine ⟨⟨[(t, h)] :: gs, ?_, by simp, Or.inl rfl⟩, k1, k2⟩
     simp only [SInv, hc, Option.toList_none, List.nil_append, Option.toList_some, List.singleton_append] at inv ⊢
     rcases k3 with ⟨_, hne, _⟩ | ⟨_, _, ci⟩
     · exact absurd rfl hne
@@ -75,7 +77,7 @@ theorem Series.append_inv (s : Series) (gs : List (List (Int × Hist))) (inv : S
         obtain ⟨rfl, rfl, rfl⟩ := hr2
         obtain ⟨k1, k2, k3⟩ := appendHist_step (some c) _ [] (CInv.empty h.float) t h hwf rfl r hr1
           (fun hx => absurd rfl hx)
-        refine ⟨⟨[(t, h)] :: g :: gs, ?_, by simp⟩, k1, k2⟩
+        refine ⟨⟨[(t, h)] :: g :: gs, ?_, by simp, Or.inl rfl⟩, k1, k2⟩
         simp only [SInv, Option.toList_some, List.singleton_append]
         rcases k3 with ⟨_, hne, _⟩ | ⟨_, _, ci⟩
         · exact absurd rfl hne
@@ -86,11 +88,16 @@ theorem Series.append_inv (s : Series) (gs : List (List (Int × Hist))) (inv : S
           exact hcut.2.symm
         obtain ⟨r, hr1, hr2⟩ := bind_ok _ _ _ hr
         obtain ⟨k1, k2, k3⟩ := appendHist_step none c g inv.1 t h hwf hfl r hr1 (fun _ => rfl)
+        have hg : g.length ≠ 65535 := by
+          have h1 : c.num = g.length := All2.length inv.1.rep
+          have h2 : c.num ≠ 65535 := by
+            intro e; unfold appendHist at hr1; simp [e] at hr1
+          omega
         cases ho : r.out with
         | newChunk =>
           simp [ho, pure, Except.pure] at hr2
           obtain ⟨rfl, rfl, rfl⟩ := hr2
-          refine ⟨⟨[(t, h)] :: g :: gs, ?_, by simp⟩, k1, k2⟩
+          refine ⟨⟨[(t, h)] :: g :: gs, ?_, by simp, Or.inl rfl⟩, k1, k2⟩
           simp only [SInv, Option.toList_some, List.singleton_append]
           rcases k3 with ⟨hne, _, _⟩ | ⟨_, _, ci⟩
           · exact absurd ho hne
@@ -98,7 +105,7 @@ theorem Series.append_inv (s : Series) (gs : List (List (Int × Hist))) (inv : S
         | same =>
           simp [ho, pure, Except.pure] at hr2
           obtain ⟨rfl, rfl, rfl⟩ := hr2
-          refine ⟨⟨((t, h) :: g) :: gs, ?_, by simp⟩, k1, k2⟩
+          refine ⟨⟨((t, h) :: g) :: gs, ?_, by simp, Or.inr ⟨g, gs, rfl, rfl, hg⟩⟩, k1, k2⟩
           simp only [SInv, Option.toList_some, List.singleton_append]
           rcases k3 with ⟨_, _, ci⟩ | ⟨hx, _, ci⟩
           · exact ⟨ci, inv.2⟩
@@ -108,7 +115,7 @@ theorem Series.append_inv (s : Series) (gs : List (List (Int × Hist))) (inv : S
         | recoded =>
           simp [ho, pure, Except.pure] at hr2
           obtain ⟨rfl, rfl, rfl⟩ := hr2
-          refine ⟨⟨((t, h) :: g) :: gs, ?_, by simp⟩, k1, k2⟩
+          refine ⟨⟨((t, h) :: g) :: gs, ?_, by simp, Or.inr ⟨g, gs, rfl, rfl, hg⟩⟩, k1, k2⟩
           simp only [SInv, Option.toList_some, List.singleton_append]
           rcases k3 with ⟨_, _, ci⟩ | ⟨hx, _, ci⟩
           · exact ⟨ci, inv.2⟩
@@ -144,7 +151,7 @@ theorem runSeries_inv : ∀ (ops : List ((Int × Hist) × Bool)) (s0 : Series) (
     | ok res =>
       obtain ⟨s1', h', o⟩ := res
       simp [ha, Except.map] at h1; subst h1
-      obtain ⟨⟨gs1, inv1, hf1⟩, _, _⟩ := Series.append_inv s0 gs inv p.2 p.1.1 p.1.2 (hwf p (by simp)) _ _ _ ha
+      obtain ⟨⟨gs1, inv1, hf1, _⟩, _, _⟩ := Series.append_inv s0 gs inv p.2 p.1.1 p.1.2 (hwf p (by simp)) _ _ _ ha
       obtain ⟨gs', inv', hf'⟩ := runSeries_inv ops s1' gs1 inv1 (fun q hq => hwf q (by simp [hq])) s h2
       exact ⟨gs', inv', by rw [hf', hf1]; simp⟩
 
